@@ -192,6 +192,14 @@ func (cs *Contracts) loadContractFile(path, pkgPath string) error {
 			}
 			specSortReg[strings.TrimSpace(parts[0])] = Sort(strings.TrimSpace(parts[1]))
 			continue
+		case "ghostglobal":
+			// ghostglobal Name Type  -- ghost state shared by all functions (single SMT component)
+			w2, r2 := splitWord(rest)
+			if w2 == "" || r2 == "" {
+				return fmt.Errorf("%s:%d: ghostglobal Name Type", path, lineNo)
+			}
+			cs.ghostGlobals[w2] = r2
+			continue
 		case "uf", "spec":
 			sf, err := parseSpecFunc(word, rest)
 			if err != nil {
